@@ -52,7 +52,7 @@ PROPS['C18'] = dict(
 
 TB = dict(module='Trace_Bitmap', cfg='Trace_Bitmap.cfg')
 PROPS['C01'] = dict(
-    trace=TB, mc=dict(quick=[], thorough=[]), need_kinds=['rank', 'masks'],
+    trace=TB, mc=dict(quick=[mc('MC_BitmapRank', 'MC_BitmapRank_q.cfg', expect_min_distinct=50000)], thorough=[mc('MC_BitmapRank', 'MC_BitmapRank.cfg', expect_min_distinct=1000000)]), need_kinds=['rank', 'masks'],
     rule='a case is one bitmap (0-10 words, plus a few of 20-50): every constant word pattern x every word count, all single-bit and adjacent-two-bit bitmaps over 3 words, '
          'seeded mixes of 21 word patterns with empty words; the event holds IndexRank64 (default/false/true), IndexRank128 and the (rank, bit) pair of Rank64 (both indexes) '
          'and Rank128 at EVERY position, judged against Bitmap!Rank/BitAt; plus one event with the six exported mask tables complete; '
@@ -60,21 +60,21 @@ PROPS['C01'] = dict(
     assumptions=TRUST,
 )
 PROPS['C02'] = dict(
-    trace=TB, mc=dict(quick=[], thorough=[]), need_kinds=['select'],
+    trace=TB, mc=dict(quick=[mc('MC_BitmapSelect', 'MC_BitmapSelect_q.cfg', expect_min_distinct=25000)], thorough=[mc('MC_BitmapSelect', 'MC_BitmapSelect_a.cfg', expect_min_distinct=500000), mc('MC_BitmapSelect', 'MC_BitmapSelect_b.cfg', expect_min_distinct=500000)]), need_kinds=['select'],
     rule='a case is one bitmap: shared pattern families, every single-byte word b<<8j (the whole in-byte lookup table), exactly 32k-1/32k/32k+1 ones, '
          'first/last word only with 1-6 empty words between, single bits at 7/8/15/16/31/32/63; the event holds IndexSelect32, both IndexSelect32R64 slices and the result pair of '
          'Select32 and Select32R64 for EVERY i in [0,n), judged against the ascending enumeration of the 1-bits; distinct = distinct bitmaps, non-trivial = at least one 1-bit',
     assumptions=TRUST,
 )
 PROPS['C13'] = dict(
-    trace=TB, mc=dict(quick=[], thorough=[]), need_kinds=['scan'],
+    trace=TB, mc=dict(quick=[mc('MC_BitmapScan', 'MC_BitmapScan_q.cfg', expect_min_distinct=10000)], thorough=[mc('MC_BitmapScan', 'MC_BitmapScan.cfg', expect_min_distinct=300000)]), need_kinds=['scan'],
     rule='a case is one bitmap with up to 450 ranges (i,end) whose ends are 64k-1/64k/64k+1, the neighbours of 1-bits and random points, 0<=i<=end<=64*len, i inside; '
          'NextOne and PrevOne (end>=1) at every range judged against Min/Max of {p in ones : i<=p<end}; families: shared patterns, all single-bit bitmaps over 6 words, '
          '1-bits separated by 1-5 empty words at offsets 0/63; distinct = distinct (bitmap, ranges), non-trivial = bitmap has a 1-bit',
     assumptions=TRUST,
 )
 PROPS['C14'] = dict(
-    trace=TB, mc=dict(quick=[], thorough=[]), need_kinds=['join', 'slice'],
+    trace=TB, mc=dict(quick=[mc('MC_BitmapPack', 'MC_BitmapPack_join_q.cfg', expect_min_distinct=1000), mc('MC_BitmapPack', 'MC_BitmapPack_slice_q.cfg', expect_min_distinct=10000)], thorough=[mc('MC_BitmapPack', 'MC_BitmapPack_join.cfg', expect_min_distinct=30000), mc('MC_BitmapPack', 'MC_BitmapPack_slice.cfg', expect_min_distinct=300000)]), need_kinds=['join', 'slice'],
     rule='join: all seven widths x value lists of length 0..3*64/w+1 with values 0, 2^w-1, 2^w (must vanish), all-ones, random; the returned words and Getw at every index are judged; '
          'slice: pattern bitmaps x ranges from word-boundary and random end points, result length and bits and the untouched input are judged; '
          'distinct = distinct inputs, non-trivial = non-empty value list / non-empty range',
@@ -86,7 +86,8 @@ PROPS['C12'] = dict(
               dict(drv='C12b', trace=dict(module='Trace_Builder', cfg='Trace_Builder.cfg'), shards=dict(quick=4, thorough=8),
                    gen=dict(quick=[sim('Gen_Builder', 'Gen_Builder.cfg', 300, 16, 'bld')],
                             thorough=[sim('Gen_Builder', 'Gen_Builder.cfg', 8000, 16, 'bld', shards=8)]))],
-    mc=dict(quick=[mc('MC_Builder', 'MC_Builder.cfg', expect_min_distinct=100000)], thorough=[mc('MC_Builder', 'MC_Builder_t.cfg', expect_min_distinct=100000)]),
+    mc=dict(quick=[mc('MC_Builder', 'MC_Builder.cfg', expect_min_distinct=100000), mc('MC_BitmapBuild', 'MC_BitmapBuild_q.cfg', expect_min_distinct=10000)],
+            thorough=[mc('MC_Builder', 'MC_Builder_t.cfg', expect_min_distinct=100000), mc('MC_BitmapBuild', 'MC_BitmapBuild.cfg', expect_min_distinct=100000)]),
     need_kinds=['of', 'ofmany', 'toarray', 'bld'],
     rule='of: ascending position lists (empty, word-boundary positions, large gaps) x optional n (negative, below/at/above last+1, 64k, 64k+-1) with Get/Get1/SafeGet/SafeGet1 probes at every listed position +-1 and outside; '
          'ofmany: 0-4 segments incl. size 0 and overshooting last segments; toarray: pattern bitmaps with Of(ToArray(b)); bld: Builder histories (random and TLC-simulated) with the projected state after every call; '
@@ -127,7 +128,7 @@ PROPS['C10'] = dict(
     assumptions=TRUST,
 )
 PROPS['C11'] = dict(
-    trace=TBM, mc=dict(quick=[], thorough=[]), need_kinds=['fromstr32', 'pathsof'],
+    trace=TBM, mc=dict(quick=[mc('MC_FromStr32', 'MC_FromStr32_q.cfg', expect_min_distinct=30000)], thorough=[mc('MC_FromStr32', 'MC_FromStr32.cfg', expect_min_distinct=100000)]), need_kinds=['fromstr32', 'pathsof'],
     rule='fromstr32: ALL (from, w) with from in 0..8|s|+9 and w in 0..32 for strings of 0..6 bytes over boundary bytes; random strings up to 39 bytes with from near/at/beyond the end; '
          'each event holds FromStr32, PathOf and PathStr(PathOf); pathsof: key lists with duplicates, keys equal to their predecessor and equal paths non-adjacent, with and without dedup; '
          'judged against the MSB-first bits of the string (Strings!SBit); distinct = distinct inputs, non-trivial = non-empty string and w >= 1',
